@@ -1,4 +1,5 @@
 import LSModel.Handle
+import LSModel.Decode
 /-!
 # Runtime library for the *translated* `src/repr.rs` (tools/rs2lean.py → LSModel/GenRepr.lean)
 
@@ -79,7 +80,7 @@ inductive ReserveErrorT | mk
 def ReserveError : ReserveErrorT := .mk
 
 @[inline] def rs_Ok {ρ α} (a : α) : M ρ (Rs α) := pure (.ok a)
-@[inline] def rs_Err {ρ α} (_e : ReserveErrorT) : M ρ (Rs α) := pure .err
+@[inline] def rs_Err {ρ α ε} (_e : ε) : M ρ (Rs α) := pure .err
 @[inline] def rs_Some {ρ α} (a : α) : M ρ (Option α) := pure (some a)
 
 /-- the `?` operator inside a function returning `Result<_, ReserveError>` -/
@@ -452,6 +453,41 @@ def CharIter.rs_size_hint {ρ} (it : CharIter) : M ρ (Nat × Option Nat) := pur
 def CharIter.rs_for_each {ρ} (it : CharIter) (body : Chr → M ρ Unit) : M ρ Unit := forLoop body it.items
 def StrIter.rs_into_iter {ρ} (it : StrIter) : M ρ StrIter := pure it
 def StrIter.rs_for_each {ρ} (it : StrIter) (body : Str → M ρ Unit) : M ρ Unit := forLoop body it.items
+
+/-! ## Byte and code-unit slices handed in by the caller, and std's decoders (transcribed in `LSModel/Decode.lean`) -/
+
+structure ByteSlice where
+  b : Bytes
+structure U16Slice where
+  u : List Nat
+/-- one item of `<[u8]>::utf8_chunks()` -/
+structure Chunk where
+  valid : Bytes
+  invalid : Bytes
+structure ChunkIter where
+  items : List Chunk
+/-- `char::decode_utf16(..)`: items are `Ok(char)` or `Err(DecodeUtf16Error)` (an unpaired surrogate) -/
+structure Utf16Iter where
+  items : List (Rs Chr)
+inductive Utf8ErrorT | mk
+inductive FromUtf16ErrorT | mk
+def FromUtf16Error : FromUtf16ErrorT := .mk
+
+def ByteSlice.rs_len {ρ} (x : ByteSlice) : M ρ Nat := pure x.b.length
+def ByteSlice.rs_is_empty {ρ} (x : ByteSlice) : M ρ Bool := pure x.b.isEmpty
+def U16Slice.rs_len {ρ} (x : U16Slice) : M ρ Nat := pure x.u.length
+/-- `str::from_utf8(buf)`: `Ok` exactly on valid UTF-8 (`validUtf8`, proved equivalent to `Valid` in DecodeLemmas) -/
+def str.from_utf8 {ρ} (x : ByteSlice) : M ρ (Rs Str) := pure (if validUtf8 x.b then .ok ⟨x.b⟩ else .err)
+def ByteSlice.rs_utf8_chunks {ρ} (x : ByteSlice) : M ρ ChunkIter := pure ⟨(utf8Chunks x.b).map fun (v, i) => ⟨v, i⟩⟩
+def ChunkIter.rs_for_each {ρ} (it : ChunkIter) (body : Chunk → M ρ Unit) : M ρ Unit := forLoop body (it.items.map some)
+def Chunk.rs_valid {ρ} (c : Chunk) : M ρ Str := pure ⟨c.valid⟩
+def Chunk.rs_invalid {ρ} (c : Chunk) : M ρ ByteSlice := pure ⟨c.invalid⟩
+def char.REPLACEMENT_CHARACTER : Chr := ⟨replacement, 3⟩
+def U16Slice.rs_iter {ρ} (x : U16Slice) : M ρ U16Slice := pure x
+def U16Slice.rs_copied {ρ} (x : U16Slice) : M ρ U16Slice := pure x
+def char.decode_utf16 {ρ} (x : U16Slice) : M ρ Utf16Iter :=
+  pure ⟨(decodeUtf16 x.u).map fun o => match o with | some b => .ok ⟨b, b.length⟩ | none => .err⟩
+def Utf16Iter.rs_for_each {ρ} (it : Utf16Iter) (body : Rs Chr → M ρ Unit) : M ρ Unit := forLoop body (it.items.map some)
 
 /-! ## Constants the source names -/
 
